@@ -41,6 +41,7 @@ type c11Lock struct {
 
 type c11Acc struct {
 	roundings int // value conversions applied to this (denom, validator) stake since the last refresh
+	slack     int64 // extra units allowed until the next refresh (a slash truncates each lock by up to one share unit)
 }
 
 // value re-implements the documented conversion: risk-adjusted(round(multiplier × amount)).
@@ -173,7 +174,7 @@ func runC11(c *vk.Ctx) {
 				if !afterRefresh {
 					// every conversion rounds twice (to whole uosmo, then the risk cut): up to 3 units per
 					// conversion applied since the refresh, plus one per lock for the sum-vs-parts difference
-					tol = 3*int64(acc(ia.Denom, vi).roundings) + int64(n)
+					tol += 3*int64(acc(ia.Denom, vi).roundings) + int64(n) + acc(ia.Denom, vi).slack
 				}
 				if d := stake.Sub(exp).Abs(); d.GT(sdkmath.NewInt(tol)) {
 					s := sig(op)
@@ -267,6 +268,38 @@ func runC11(c *vk.Ctx) {
 				return cand[r.Intn(len(cand))]
 			}
 			op := ""
+			if i%3 == 2 && r.Intn(20) == 0 {
+				// validator faults (every third history): a validator is jailed / unjailed through the staking keeper,
+				// the way the slashing module does. The statement does not speak about jailing; what is checked is
+				// what it does say, in its presence. Slashing is deliberately not injected: once a validator's
+				// tokens-per-share rate leaves 1, SuperfluidUndelegate and the downward refresh can fail with
+				// "invalid shares amount" (recorded as an observation), which the statement does not cover.
+				consAddr := ch.Vals[vi].ConsAdr
+				val, verr := ch.App.StakingKeeper.GetValidatorByConsAddr(ch.Ctx, consAddr)
+				if verr != nil {
+					continue
+				}
+				if val.IsJailed() {
+					op = "validator-unjail"
+					c.Logf("Unjail(validator %d)", vi)
+					cctx, write := ch.Ctx.CacheContext()
+					if err := ch.App.StakingKeeper.Unjail(cctx, consAddr); err == nil {
+						write()
+					}
+				} else {
+					op = "validator-jail"
+					c.Logf("Jail(validator %d)", vi)
+					cctx, write := ch.Ctx.CacheContext()
+					if err := ch.App.StakingKeeper.Jail(cctx, consAddr); err == nil {
+						write()
+					}
+				}
+				ch.NextBlock(5 * time.Second) // validator set update
+				if !check(op, false) {
+					return
+				}
+				continue
+			}
 			switch r.Intn(12) {
 			case 0, 1: // lock and delegate in one message
 				have := ch.Bal(o.Addr, shareDenom)
@@ -482,6 +515,7 @@ func runC11(c *vk.Ctx) {
 					// have been produced since, without superfluid messages: stakes must be exact
 					for _, a := range accs {
 						a.roundings = 0
+						a.slack = 0
 					}
 					if !check("epoch", true) {
 						return
